@@ -2,14 +2,13 @@
 From Coq Require Import List NArith ZArith Bool.
 From Coq Require Import Strings.Byte.
 From NfpmV Require Import Lib.Bytes Model.Path Model.Content Model.Prepare Model.Payload Spec.C05 Spec.C01 Spec.C04.
-From NfpmV Require Import Proofs.C01Proofs Proofs.C04Proofs Proofs.C04Plan.
+From NfpmV Require Import Proofs.KeyFacts Proofs.PlanFacts Proofs.C05Proofs Proofs.C01Proofs Proofs.C04Proofs Proofs.C04Plan Proofs.C04Parents.
 Import ListNotations.
 
 (* For deb, ipk, apk and archlinux and every plan of prepared entries with distinct locations, the member
    names of the payload tar written by the packager model are unique, relative, "./"-prefixed (deb, ipk),
    free of ".." components, and directory members end in "/" (the root excepted).
-   PARTIAL: the remaining clause of the checker - parents precede children - is not yet a theorem; it is
-   decided on every run by the checker on the implementation's archives and by C05's theorem on the plan. *)
+   (Kept from the first version: everything but "parents precede children"; the full statement is below.) *)
 Theorem C04_tar_names_wellformed_partial :
   forall f mt cs, f <> FRpm -> all_prepared f cs -> NoDup (map location cs) ->
   forall cl, In cl (check_names f (members_of (payload_of f mt cs))) -> cl = WParents.
@@ -23,3 +22,19 @@ Theorem C04_plan_names_wellformed_partial :
   forall cl, In cl (check_names f (members_of (payload_of f mt cs))) -> cl = WParents.
 Proof. exact plan_names_wellformed. Qed.
 Print Assumptions C04_plan_names_wellformed_partial.
+
+(* THE FULL STATEMENT. With the plan's parents first (which C05 proves of every plan the planning model produces),
+   no clause of the name checker fails - "parents precede children" included: every member's directory is "", "./"
+   or a directory member written earlier. *)
+Theorem C04_tar_names_wellformed :
+  forall f mt cs, f <> FRpm -> all_prepared f cs -> NoDup (map location cs) -> parents_beforeb [] cs = true ->
+  check_names f (members_of (payload_of f mt cs)) = [].
+Proof. exact names_wellformed_all. Qed.
+Print Assumptions C04_tar_names_wellformed.
+
+Theorem C04_plan_names_wellformed :
+  forall f fs st ces umask mt cs, f <> FRpm ->
+  oracle_okb fs st umask mt ces = true -> prep fs st ces umask (fmt_name f) mt = Ok cs -> envelope_C01 cs = true ->
+  check_names f (members_of (payload_of f mt cs)) = [].
+Proof. exact plan_names_wellformed_all. Qed.
+Print Assumptions C04_plan_names_wellformed.
